@@ -255,6 +255,31 @@ def run_containers(res, spec_, rng):
         res.count("b_comparisons")
         if _snapshot_and_bytes(B) != before:
             res.violation("C17:leak:Project:clone:links", "connecting modules in A changed the clone B", desc)
+        # a request that mixes modules of A and of its clone (a disconnect, between positions that ARE linked in both): refused,
+        # and neither project changes
+        from rv.errors import ModuleOwnershipError as _MOE
+        live_idx = [m.index for m in A.modules if m is not None and m.index < len(B.modules) and B.modules[m.index] is not None]
+        if len(live_idx) >= 2:
+            f, t = rng.sample(live_idx, 2)
+            A.connect(A.modules[f], A.modules[t])
+            B.connect(B.modules[f], B.modules[t])
+        edges_a = [(f_, t_) for f_, t_ in monitors.edge_multiset(A) if (f_, t_) in set(monitors.edge_multiset(B))]
+        if edges_a:
+            f, t = rng.choice(edges_a)
+            before_pair = (_snapshot_and_bytes(A), _snapshot_and_bytes(B))
+            res.count("cross_clone_requests")
+            for attempt in (lambda: B.modules[t].__lshift__(~A.modules[f]), lambda: A.connect(A.modules[f], ~B.modules[t]), lambda: B.modules[f].__rshift__(~A.modules[t])):
+                try:
+                    attempt()
+                    res.violation("C17:leak:Project:clone:cross-project-request-accepted", f"a disconnect naming module {f} of a project and module {t} of its clone was carried out", desc)
+                    break
+                except _MOE:
+                    pass
+                except Exception as e:
+                    res.violation(f"C17:leak:Project:clone:cross-project-request:{type(e).__name__}", f"a disconnect across a project and its clone raised {e!r}", desc)
+                    break
+            if (_snapshot_and_bytes(A), _snapshot_and_bytes(B)) != before_pair:
+                res.violation("C17:leak:Project:clone:cross-project-request-changed-state", "a refused request across a project and its clone changed one of them", desc)
         raw = A.read()
         L1, L2 = workload.load(raw), workload.load(raw)
         alias_scan(res, L1, L2, "Project:same-bytes", desc)
@@ -266,6 +291,29 @@ def run_containers(res, spec_, rng):
     ca, cb = api.PatternClone(source=0), api.PatternClone(source=0)
     alias_scan(res, ca, cb, "PatternClone:fresh", {"type": "PatternClone"})
     differential(res, ca, cb, "fresh", "PatternClone", rng, 0, {"type": "PatternClone"})
+    # drawn waveforms of unusual length (a file may carry any number of points): the loaded list belongs to the loaded module
+    for cls_ in (api.m.Generator, api.m.AnalogGenerator):
+        for npts in (0, 16, 31, 33, 64):
+            try:
+                pts = [(i * 5) % 100 - 50 for i in range(npts)]
+                raw_w = api.Synth(cls_(samples=list(pts))).read()
+                fresh_before = list(cls_().drawn_waveform.samples)
+                first = workload.load(raw_w).module
+                got_first = list(first.drawn_waveform.samples)
+                for i in range(len(first.drawn_waveform.samples)):
+                    first.drawn_waveform.samples[i] = 77
+                first.drawn_waveform.samples.append(5)
+                second = list(workload.load(raw_w).module.drawn_waveform.samples)
+                fresh_after = list(cls_().drawn_waveform.samples)
+            except Exception:
+                res.count("odd_waveform_length_unsupported")
+                continue
+            res.count("odd_waveform_length_cases")
+            res.case(("odd-waveform", cls_.__name__, npts))
+            if second != got_first or fresh_after != fresh_before:
+                res.violation(f"C17:leak:{cls_.__name__}:same-bytes:drawn_waveform", f"a {npts}-point drawn waveform was loaded and edited in place; a second load of the same bytes gives {second[:6]}... "
+                                                                                    f"(first gave {got_first[:6]}...), a fresh {cls_.__name__}() has {fresh_after[:4]}... (before: {fresh_before[:4]}...)",
+                              {"type": cls_.__name__, "points": npts})
     # a NOTE cloned out of project A and put into a pattern of project B (plain cell assignment): the clone is B's business
     for k in range(6):
         A, B = api.Project(), api.Project()
